@@ -998,6 +998,7 @@ func (w *World) rulesFormula(out *[]Obligation) {
 		}
 		w.rulesWeights(p, ctx, fam, out)
 		w.rulesRealMono(p, ctx, trees[k], oracle["round"], roundSym, out)
+		w.rulesFloatSafe(p, fam, p.codeWeights(ctx), trees[k], oracle["round"], roundSym, out)
 	}
 	// R03.sibling: 3.0 and 3.1 differ only in the oracle-sanctioned leaf
 	for _, sm := range scoreMethods {
